@@ -55,7 +55,8 @@ def generate(prop, rng):
     ops = []
     kinds = [(3, "get"), (2, "contains"), (3, "iteritems"), (3, "ls"), (2, "info"), (1, "diff"),
              (2, "fs_ls"), (1, "fs_info"), (1, "fs_find"), (2, "fs_open"), (3, "view"), (1, "load"), (1, "reopen"),
-             (1, "evict_restore"), (2, "view_ls"), (1, "view_fs_find"), (3, "iter_nested"), (1, "crash_load")]
+             (1, "evict_restore"), (2, "view_ls"), (1, "view_fs_find"), (3, "iter_nested"), (1, "crash_load"),
+             (2, "evict_cached")]
     for _ in range(rng.randint(4, 20)):
         ops.append({"op": gen.weighted(rng, kinds), "r": rng.random(), "r2": rng.random(),
                     "shallow": rng.random() < 0.3, "detail": rng.random() < 0.5, "absent": rng.random() < 0.15})
@@ -262,6 +263,9 @@ def execute(sc, ctx):
         except Exception:  # noqa: BLE001
             return False
 
+    fs_cache = {}
+    last_open = [None]
+
     def run(idx, op, tag):
         """Returns a normalised answer for `op` on `idx`."""
         k = op["op"]
@@ -341,7 +345,13 @@ def execute(sc, ctx):
             b = sorted((key, _norm(e)) for key, e in idx.iteritems())
             return ("ok", a, a == b)
         if k.startswith("fs_"):
-            fs = DataFileSystem(idx)
+            # one long-lived adaptor per index object (what it may remember from earlier reads must not
+            # outlive a change of the storage behind it)
+            fs = fs_cache.get(id(idx))
+            if fs is None or fs_cache.get(("idx", id(idx))) is not idx:
+                fs = DataFileSystem(idx)
+                fs_cache[id(idx)] = fs
+                fs_cache[("idx", id(idx))] = idx
             if k == "fs_find":
                 return ("ok", sorted(fs.find("/")))
             if k == "fs_open":
@@ -433,6 +443,32 @@ def execute(sc, ctx):
                 attach(L)
                 ctx.probe("sqlite_reopened")
             continue
+        if op["op"] == "evict_cached":
+            # with cache + remote storage: another process' gc removes a file object from the cache; the remote
+            # still holds it, so every later read has to be served from there
+            if split:
+                have = sorted(o for o in by_oid if os.path.exists(os.path.join(w.p("cache"), o[:2], o[2:])))
+                victim = None
+                if last_open[0] is not None and filekeys:
+                    lk = pick(filekeys, last_open[0]["r"])
+                    if F[lk][1] in have:
+                        victim = F[lk][1]  # the object the adaptor served last
+                if victim is None and have:
+                    victim = pick(have, op["r"])
+                if victim is not None:
+                    w.raw_rm("cache", "local", victim)
+                    ctx.probe("cached_file_object_evicted_between_reads")
+                    if last_open[0] is not None:
+                        # the same read again, through the same long-lived adaptors
+                        for which, idx_ in (("lazy", L), ("explicit", E)):
+                            try:
+                                got = run(idx_, last_open[0], which)
+                            except Exception as exc:  # noqa: BLE001
+                                got = ("raised", type(exc).__name__)
+                            if got != expect(last_open[0]):
+                                ctx.violate("adaptor-differs-from-storage", f"fs_open:after-cache-eviction:{which}:{got[1] if got[0] == 'raised' else 'answer'}",
+                                            f"op{n}: re-reading after the cache lost {model.short(victim)}: {str(got)[:120]}")
+            continue
         if op["op"] == "crash_load":
             # another process starts loading directories of the SQLite-backed index and dies at its
             # k-th write to the index file; whatever it left must not change any later answer
@@ -502,6 +538,8 @@ def execute(sc, ctx):
                 w.raw_add("cache", "local", doid_, dbytes_)
                 ctx.probe("dir_object_arrived_after_first_access")
             continue
+        if op["op"] == "fs_open" and not op.get("absent"):
+            last_open[0] = op
         pre = is_loaded()
         try:
             gotL = run(L, op, "L")
